@@ -700,7 +700,7 @@ pub fn run_c19_case(p: &Program, cfg: &Config, rng: &mut crate::rng::Rng) -> Cas
             if let Err(e) = crate::oracle::replay_may(&q, h, &may, false) {
                 let mut dev = MachineCfg::may();
                 dev.dev = crate::graph::Deviation { at_ignores_plain_stores: true };
-                if crate::oracle::replay_may(&q, h, &dev, false).is_ok() {
+                if crate::oracle::replay_may(&q, h, &dev, false).map(|a| !a.results.is_empty()).unwrap_or(false) {
                     continue; // K3, reported by C03
                 }
                 rep.violations.push(viol("controls", format!("iteration {} under exploration controls is not a valid execution: {}", k + 1, e), json!({"program": q.text(), "history": history_text(h)})));
